@@ -164,3 +164,17 @@ Fixpoint exec (g : cfg) (acts : list act) : option cfg :=
   | [] => Some g
   | a :: r => match exec1 g a with Some g' => exec g' r | None => None end
   end.
+
+(* a call made from a handler (parent = 1 + index of the call that invoked the handler, 0 = none) is placed
+   after that call: handlers run only after the critical section of their call *)
+Fixpoint index_in (x : N) (w : list N) (k : N) : option N :=
+  match w with [] => None | y :: r => if y =? x then Some k else index_in x r (k + 1) end.
+Definition parents_ok (parents : list N) (w : list N) : bool :=
+  forallb (fun i =>
+    match nth_error parents (N.to_nat i) with
+    | Some 0 | None => true
+    | Some p => match index_in (p - 1) w 0, index_in i w 0 with
+                | Some a, Some b => a <? b
+                | _, _ => false
+                end
+    end) w.
